@@ -61,9 +61,17 @@ def s51(ctx, prog):
         pushes = [(a, sp) for (nm, a, sp) in calls if nm == 'push' and len(a) == 2]
         stack_pushes = [(a, sp) for (a, sp) in pushes if a[0] == SYM('root_stack')]
         if not stack_pushes:
-            ctx.violation('S5.1', 'sequence-branch', 'no-stack-push', 'a path through the separator branch leaves nothing on root_stack', span=f.span)
-            continue
-        top = stack_pushes[-1][0][1]
+            # nothing is pushed when the node that stays on top of the stack is edited in place through `root_stack.last_mut()`: that node
+            # is then the top
+            inplace = [('proj', a[0][1], a[0][2][:-1]) for (a, sp) in pushes if a[0][0] == 'proj' and a[0][2][-1:] == ('children',) and len(a[0][2]) > 1 and a[0][1][0] == 'app'
+                       and a[0][1][1].split('::')[-1].split('#')[0] in ('last_mut', 'last') and a[0][1][2] and a[0][1][2][0] == SYM('root_stack')]
+            if not inplace:
+                ctx.violation('S5.1', 'sequence-branch', 'no-stack-push', 'a path through the separator branch leaves nothing on root_stack', span=f.span)
+                continue
+            top = inplace[-1]
+            stack_pushes = [((SYM('root_stack'), top), f.span)]
+        else:
+            top = stack_pushes[-1][0][1]
         # sub-branch label from the branch conditions (for reporting; not used for the verdict)
         label = sub_label(eff)
         n += 1
@@ -359,7 +367,10 @@ def s58(ctx, prog, T):
             if is_adt(ret, 'result::Result', 'Err') or ret == ('diverge',):
                 out = 'error' if ret != ('diverge',) else 'panic'
             elif not on_stack:
-                out = '?'
+                # nothing pushed: the node that stays on top was edited in place through `root_stack.last_mut()`
+                inplace = [tgt for tgt, v in pushes if tgt[0] == 'proj' and tgt[2][-1:] == ('children',) and who(('proj', tgt[1], tgt[2][:-1]) if len(tgt[2]) > 1 else tgt[1]) == 'L'
+                           and tgt[1][0] == 'app' and tgt[1][1].split('::')[-1].split('#')[0] in ('last_mut', 'last')]
+                out = ('lower', False) if inplace else '?'
             else:
                 top = on_stack[-1]
                 out = ({'R': 'root', 'N': 'node', 'L': 'lower'}.get(who(top), '?'), any(v == NODE for v in on_stack))
